@@ -239,8 +239,7 @@ theorem C14t_maximal_exists (s : St) :
 /-- **Final states of maximal runs** (the property as a theorem about maximal runs).  In a
     reachable maximal state of the repaired code:
     1. every operation has returned (every activity is idle or its thread has finished), the lock
-       is free, no constructor result is pending and no destructor is in progress (`life c` is
-       never `dying`);
+       is free, and no destructor is in progress (`life c` is never `dying`);
     and, if stop was requested (some request_stop won),
     2. the callback list is empty;
     3. every callback that was ever registered was taken by the winning request_stop (`deqd`) or
